@@ -53,6 +53,8 @@ func wordsOf(bytes int) uint64 { return (uint64(bytes) + 31) / 32 }
 
 var location = common.Location{0, 0}
 
+var logAll bool // -allsteps: write every interpreter step to the trace
+
 const (
 	originHex   = "0x000000000000000000000000000000000000a11c"
 	contractHex = "0x00000000000000000000000000000000c0de0001"
@@ -114,34 +116,38 @@ type opStat struct {
 }
 
 type Result struct {
-	Programs      int                 `json:"programs"`
-	Directed      int                 `json:"directed_programs"`
-	Random        int                 `json:"random_programs"`
-	Steps         int                 `json:"steps"`
-	Events        int                 `json:"events"`
-	MaxDepth      int                 `json:"max_depth"`
-	Frames        int                 `json:"frames"`
-	Faults        int                 `json:"faults"`
-	Panics        int                 `json:"panics"`
-	PeakMemBytes  uint64              `json:"peak_mem_bytes"`
-	Classes       map[string]int      `json:"classes"` // "OP/grew|same/paid|unpaid" -> count
-	PerOp         map[string]*opStat  `json:"per_op"`
-	MemSizeOps    []string            `json:"memsize_ops"`
-	NeverGrew     []string            `json:"memsize_ops_never_grew"`
-	Violations    []Violation         `json:"violations"`     // first per (kind, op)
-	ViolationCnt  map[string]int      `json:"violation_count"`
-	Anomalies     []string            `json:"anomalies"`
-	Samples       [][]Event           `json:"samples"`
-	WorstUnpaid   map[string]Violation `json:"worst_unpaid,omitempty"`
-	WallSeconds   float64             `json:"wall_s"`
-	BoundBroken   int                 `json:"steps_with_memory_bound_broken"`
-	TotalBroken   int                 `json:"steps_with_total_bound_broken"`
+	Programs     int                  `json:"programs"`
+	Directed     int                  `json:"directed_programs"`
+	Random       int                  `json:"random_programs"`
+	Steps        int                  `json:"steps"`
+	LoggedSteps  int                  `json:"logged_steps"`
+	LoggedBroken int                  `json:"logged_states_bound_broken"`
+	Events       int                  `json:"events"`
+	MaxDepth     int                  `json:"max_depth"`
+	Frames       int                  `json:"frames"`
+	Faults       int                  `json:"faults"`
+	Panics       int                  `json:"panics"`
+	PeakMemBytes uint64               `json:"peak_mem_bytes"`
+	Classes      map[string]int       `json:"classes"` // "OP/grew|same/paid|unpaid" -> count
+	PerOp        map[string]*opStat   `json:"per_op"`
+	MemSizeOps   []string             `json:"memsize_ops"`
+	NeverGrew    []string             `json:"memsize_ops_never_grew"`
+	Violations   []Violation          `json:"violations"` // first per (kind, op)
+	ViolationCnt map[string]int       `json:"violation_count"`
+	Anomalies    []string             `json:"anomalies"`
+	Samples      [][]Event            `json:"samples"`
+	WorstUnpaid  map[string]Violation `json:"worst_unpaid,omitempty"`
+	WallSeconds  float64              `json:"wall_s"`
+	BoundBroken  int                  `json:"steps_with_memory_bound_broken"`
+	TotalBroken  int                  `json:"steps_with_total_bound_broken"`
 }
 
 type frame struct {
 	contract *vm.Contract
 	entryGas uint64
 	words    uint64
+	spent    uint64 // entryGas - gas left, as of the frame's last step
+	seen     bool   // a step of this frame has been logged
 }
 
 type tracer struct {
@@ -154,6 +160,7 @@ type tracer struct {
 	res      *Result
 	culprits int // unpaid growth steps seen in this program
 	log      bool
+	all      bool   // log every step
 	lastPc   uint64 // pc / code / depth of the last step seen (to attribute a panic in mem.Resize)
 	lastCode []byte
 	lastD    int
@@ -268,17 +275,23 @@ func (t *tracer) CaptureState(env *vm.EVM, pc uint64, op vm.OpCode, gas, cost ui
 		t.culprits++
 		t.violation(mk("unpaid-memory"))
 	}
-	// state form of the property: what the frame holds is covered by what the frame has spent
-	if memCost(after) > spent {
-		t.res.BoundBroken++
-		if t.culprits == 0 {
-			t.violation(mk("memory-bound"))
-		}
+	f.spent = spent
+	// state form of the property: what a frame holds is covered by what that frame has spent
+	if memCost(after) > spent && t.culprits == 0 {
+		t.violation(mk("memory-bound"))
 	}
 	// all live frames together against the transaction's spending
 	var sum uint64
+	anyBroken := false
 	for i := range t.frames {
-		sum += memCost(t.frames[i].words)
+		c := memCost(t.frames[i].words)
+		sum += c
+		if c > t.frames[i].spent {
+			anyBroken = true
+		}
+	}
+	if anyBroken {
+		t.res.BoundBroken++
 	}
 	tl := t.topLeft()
 	if t.topGas >= tl && sum > t.topGas-tl {
@@ -287,8 +300,15 @@ func (t *tracer) CaptureState(env *vm.EVM, pc uint64, op vm.OpCode, gas, cost ui
 			t.violation(mk("memory-bound-total"))
 		}
 	}
-	if t.log {
+	// the trace for TLC holds every step of an opcode with memorySize, every step that changed memory
+	// (whatever the opcode) and the first step of every frame; all other steps are judged above only
+	if fa := t.facts[byte(op)]; t.log && (t.all || !f.seen || after != before || fa == nil || fa.HasMemSize) {
 		t.events = append(t.events, Event{Ev: "step", P: t.idx, Op: name, D: depth, Mb: before, Ma: after, Gb: gas, Ga: ga, Fg: f.entryGas, Tg: tl})
+		t.res.LoggedSteps++
+		if anyBroken {
+			t.res.LoggedBroken++
+		}
+		f.seen = true
 	}
 }
 
@@ -305,6 +325,7 @@ func (t *tracer) fault(name string, depth int, f *frame, before, after, gas, ga 
 		f.words = after
 	}
 	if t.log {
+		f.seen = true
 		t.events = append(t.events, Event{Ev: "fault", P: t.idx, Op: name, D: depth, Mb: before, Ma: after, Gb: gas, Ga: ga, Fg: f.entryGas, Tg: t.topLeft()})
 	}
 }
@@ -399,7 +420,7 @@ func execute(p *Program, idx int, facts map[byte]*OpFact, res *Result, logEvents
 	for _, h := range p.Access {
 		statedb.AddAddressToAccessList(common.HexToAddress(h, location).Bytes20())
 	}
-	tr := &tracer{prog: p, idx: idx, facts: facts, res: res, topGas: p.Gas, log: logEvents}
+	tr := &tracer{prog: p, idx: idx, facts: facts, res: res, topGas: p.Gas, log: logEvents, all: logAll || strings.HasPrefix(p.Label, "probe-")}
 	if logEvents {
 		tr.events = append(tr.events, Event{Ev: "tracereset", P: idx, G: p.Gas})
 	}
@@ -504,19 +525,19 @@ func addrBytes(h string) []byte { return unhex(h) }
 type slotKind int
 
 const (
-	sOff0  slotKind = iota // offset of region 0
-	sLen0                  // length of region 0
-	sOff1                  // offset of region 1
-	sLen1                  // length of region 1
-	sZero                  // 0
-	sWord                  // arbitrary value
-	sAddr                  // an address to call / copy from
-	sGas                   // gas to forward
-	sValue                 // value to transfer
-	sSrc                   // MCOPY source offset
-	sExt                   // out-of-zone address (ETX destination)
-	sEtxGas                // ETX gas limit
-	sFee                   // ETX tip / fee cap
+	sOff0   slotKind = iota // offset of region 0
+	sLen0                   // length of region 0
+	sOff1                   // offset of region 1
+	sLen1                   // length of region 1
+	sZero                   // 0
+	sWord                   // arbitrary value
+	sAddr                   // an address to call / copy from
+	sGas                    // gas to forward
+	sValue                  // value to transfer
+	sSrc                    // MCOPY source offset
+	sExt                    // out-of-zone address (ETX destination)
+	sEtxGas                 // ETX gas limit
+	sFee                    // ETX tip / fee cap
 	sSalt
 )
 
@@ -836,6 +857,18 @@ func directed(list []*OpFact) []*Program {
 			}
 		}
 	}
+	// recursion: the contract grows its memory, then calls itself with all gas; ~40 live frames under 1e9 gas
+	for _, gas := range []uint64{1000000, 20000000} {
+		a := &asm{}
+		snippet(a, vm.MSTORE, args{r: [2]region{{40000, 0}}, word: 1})
+		snippet(a, vm.CALL, args{addr: contractHex, gas: 0xffffffffffff, r: [2]region{{0, 64}, {50000, 64}}})
+		snippet(a, vm.ETX, args{r: [2]region{{0, 1 << 16}, {0, 1 << 16}}, etxGas: 21000, fee: 1})
+		a.op(vm.GAS)
+		a.push(600000)
+		a.op(vm.LT) // stop recursing when little gas is left: JUMPI over nothing is not needed, the CALL just fails
+		a.op(vm.POP).op(vm.STOP)
+		add(fmt.Sprintf("dir/recursion/gas=%d", gas), a, gas)
+	}
 	return out
 }
 
@@ -929,7 +962,7 @@ func (g *gen) body(a *asm, n int, targets []string, salts map[string][]byte, all
 		if len(targets) > 0 && g.r.Intn(4) != 0 {
 			ar.addr = targets[g.r.Intn(len(targets))]
 		} else {
-			ar.addr = []string{absentHex, emptyHex, contractHex, "0x0000000000000000000000000000000000000004"}[g.r.Intn(4)]
+			ar.addr = []string{absentHex, emptyHex, emptyHex, "0x0000000000000000000000000000000000000004"}[g.r.Intn(4)]
 		}
 		if (op == vm.CALL || op == vm.CALLCODE || op == vm.ETX) && g.r.Intn(3) == 0 {
 			ar.value = uint64(1 + g.r.Intn(1000))
@@ -1123,6 +1156,7 @@ func main() {
 	seed := fs.Int64("seed", 1, "seed")
 	n := fs.Int("n", 300, "number of random programs")
 	nodirected := fs.Bool("nodirected", false, "skip the directed per-opcode programs")
+	fs.BoolVar(&logAll, "allsteps", false, "log every interpreter step (default: memorySize opcodes, memory changes, frame entries, faults)")
 	fs.Parse(os.Args[2:])
 	t0 := time.Now()
 	switch os.Args[1] {
